@@ -24,7 +24,7 @@ CLAIMED = {
              'partial_cmp and the six operators equal the comparison of the exact values; for f32/f64 finite floats compare by exact value in both operand orders, NaN is unordered '
              'and unequal, infinities lie outside; same-type Ord/Eq (and Hash, derived from the bits) coincide with the value order. Four defects found by this check were repaired '
              'in /repo (sign of converted bits, top binade/NaN, subnormal scale, -0.0). Correspondence: typed operators for every family pair x {0,mid,n}^2, 12 integer types, f32/f64.'
-             ' SfxProps/C03Half.lean: the float statement for half::f16 / half::bf16 (feature f16); partial_cmp and the six operators on all 65 536 patterns of two types in quick, all typed layouts in thorough.',
+             ' SfxProps/C03Half.lean: the float statement for half::f16 / half::bf16 (feature f16); partial_cmp and the six operators on all 65 536 patterns of two types in quick, all typed layouts in thorough. SfxProps/C03Spec.lean: the integer cross-multiplication cmpExact is the three-way order of the exact RATIONAL values a/2^fa and b/2^fb (cmpExact_orders_values, over the rationals of Mathlib); fixed_by_values restates the six operators as the order of those values.',
         design_ref='7/C03', note=COMMON_NOTE + ' Hash equality is checked through DefaultHasher in the harness only.', technique='Lean 4 proof over executable model + differential correspondence'),
     'C04': dict(
         text='Theorem SfxProps.C04.holds (full strength): for EVERY ordered pair of valid layouts (integers = zero-fraction layouts) and every source value the '
